@@ -241,17 +241,17 @@ def drop_condition(run, F):
 
 
 def run(run):
-    flow_rules.flow_obligations(run, {'C02.d', 'C02.e', 'C03.c'})
+    run.guard('flow obligations', flow_rules.flow_obligations, run, {'C02.d', 'C02.e', 'C03.c'})
     for c in facts.configs(run.tier):
         for v in facts.variants(run.tier):
             F = facts.load('w_core', c, v)
             E = effects.Effects(F)
             run.count('fact units')
-            request_writers(run, F, E)
-            request_slot_writers(run, F, E)
-            requested_writers(run, F, E)
-            immediate(run, F, E)
-            drop_condition(run, F)
+            run.guard('request writers', request_writers, run, F, E)
+            run.guard('request slot writers', request_slot_writers, run, F, E)
+            run.guard('requested writers', requested_writers, run, F, E)
+            run.guard('immediate', immediate, run, F, E)
+            run.guard('drop condition', drop_condition, run, F)
             facts.drop(F)
             cfgmod.clear_cache()
     run.floor('C02.a', 60)
